@@ -7,6 +7,19 @@ HERE = os.path.dirname(os.path.dirname(os.path.abspath(__file__)))
 
 # id -> (category, technique, text, note, design_ref)
 CHECKS = {
+    "C08": (
+        "exploration",
+        "bounded exhaustive enumeration of adapter sets x configurations x reads on the real index classes, judged against exact distance tables",
+        "All ordered pairs (first adapter canonical) of strings over {A,C,G} of length 3-4 (thorough 3-5) and all ordered triples of "
+        "equal-length strings, under 4-6 shared error rates (so that allowed errors 0-3 differ between adapters of different length), "
+        "indels on/off, anchored 5' and 3', against ALL reads over ACGT up to length 6 (7) plus reads with one N - including reads "
+        "shorter than the longest index string and reads equal to one adapter. Clause 1: coordinates inside the read, anchored, reported "
+        "errors == exact edit/Hamming distance <= the adapter's own allowance; clause 2: a uniquely occurring adapter is reported "
+        "(N-free reads); clause 3: IndexedPrefix/SuffixAdapters == MultipleAdapters when lengths are equal, indels off and the nearest "
+        "adapter is strictly unique (every order of the list is enumerated).",
+        "Trusted: C reference distance tables; letter symmetry for the first adapter of a set.",
+        "DESIGN.md section 3, C08",
+    ),
     "C12": (
         "fault_enumeration",
         "exhaustive fault enumeration (every truncation offset, every single-record corruption position) x delay-bounded exploration of all schedules of the multi-core runner",
